@@ -25,7 +25,8 @@ var (
 	keys    []*rsa.PrivateKey
 )
 
-// Keys returns the committed throw-away RSA key pool (4 x 2048, 2 x 3072, 2 x 4096 bits).
+// Keys returns the committed throw-away RSA key pool (4 x 2048, 2 x 3072, 2 x 4096 bits,
+// and a 2047- and a 3071-bit key whose modulus length is not a multiple of 8).
 func Keys() []*rsa.PrivateKey {
 	keyOnce.Do(func() {
 		ents, err := keyFS.ReadDir("keys")
@@ -62,9 +63,9 @@ func (i Identity) Priv() *rsa.PrivateKey { return Keys()[i.Key] }
 // KeyIndex draws a key index; small keys are favoured when cheap is set.
 func KeyIndex(cheap bool) *rapid.Generator[int] {
 	if cheap {
-		return rapid.SampledFrom([]int{0, 1, 2, 3, 0, 1, 2, 3, 0, 1, 4, 6})
+		return rapid.SampledFrom([]int{0, 1, 2, 3, 0, 1, 2, 3, 0, 1, 4, 6, 8})
 	}
-	return rapid.SampledFrom([]int{0, 1, 2, 3, 4, 5, 6, 7})
+	return rapid.SampledFrom([]int{0, 1, 2, 3, 4, 5, 6, 7, 8, 9})
 }
 
 // Serial draws a positive serial number of 1..20 bytes with boundary patterns
@@ -162,7 +163,8 @@ func makeCertFull(key int, subject pkix.Name, rawSubject []byte, serial *big.Int
 		NotAfter:           now.Add(10 * 365 * 24 * time.Hour),
 		KeyUsage:           x509.KeyUsageDigitalSignature,
 		PublicKeyAlgorithm: x509.RSA,
-		SignatureAlgorithm: x509.SHA256WithRSA,
+		// how the certificate itself is signed varies with the serial number (it must not matter to anything)
+		SignatureAlgorithm: []x509.SignatureAlgorithm{x509.SHA256WithRSA, x509.SHA256WithRSA, x509.SHA384WithRSA, x509.SHA512WithRSA}[serial.Bit(0)+2*serial.Bit(1)],
 	}
 	k := Keys()[key]
 	parent, signKey := tpl, k
